@@ -372,6 +372,8 @@ def _binop_c_expr(op_type: type, left: str, right: str) -> str:
         return f"__redu_floordiv({left}, {right})"
     if op_type is ast.Mod:
         return f"__redu_mod({left}, {right})"
+    if op_type is ast.Pow:
+        return f"__redu_pow({left}, {right})"
     return f"({left} {_BIN[op_type]} {right})"
 
 
